@@ -9,10 +9,12 @@ section
 variable (T : Tables) (txt : Bytes)
 
 /-- The state `parse` starts the tokenizer with: a root node and the implicit `xml` binding. -/
+def rootNode (range : Range) : NodeData :=
+  { parent := none, prevSibling := none, nextSubtree := none, lastChild := none, kind := .root,
+    range := range }
+
 def initCtx (opt : Opt) : Res Ctx := do
-  let root : NodeData :=
-    { parent := none, prevSibling := none, nextSubtree := none, lastChild := none,
-      kind := .root, range := if opt.positions then (0, txt.length) else (0, 0) }
+  let root : NodeData := rootNode (if opt.positions then (0, txt.length) else (0, 0))
   let ns ← ({} : Namespaces).pushNs (some ⟨0, Lit.xml⟩) (.borrowed ⟨0, nsXmlUri⟩)
   pure { nodesLimit := opt.nodesLimit, positions := opt.positions, doc := { nodes := #[root], ns := ns } }
 
